@@ -109,6 +109,11 @@ class _StatePointDict(JSONAttrDict):
         pass
 
     def _save(self):
+        # Like the parent class, do not save while synchronization is
+        # suspended, e.g. in the middle of an in-place update of nested data.
+        if self._suspend_sync:
+            return
+
         # State point modification triggers job migration for all jobs sharing
         # this state point (shallow copies of a single job).
         new_id = calc_id(self)
